@@ -25,6 +25,21 @@ def cj(v):
         return "<unserialisable %s>" % type(v).__name__
 
 
+def alias_equal(v, pool=None):
+    """The same JSON value, but with every array / object that occurs more than once (equal as JSON text, member
+    order included) represented by ONE Python object wherever it occurs: what json.loads never produces and
+    programs that assemble schemas from shared parts always do.  Nothing may depend on object identity."""
+    pool = {} if pool is None else pool
+    if isinstance(v, dict):
+        new = dict((k, alias_equal(e, pool)) for k, e in v.items())
+    elif isinstance(v, list):
+        new = [alias_equal(e, pool) for e in v]
+    else:
+        return v
+    key = json.dumps(new, sort_keys=False, default=repr)
+    return pool.setdefault(key, new)
+
+
 def errkey(e, message=True, value=True, instance=False):
     """Comparable identity of an error: keyword, message, paths, value, context (recursively, as a sorted multiset)."""
     ctx = sorted(errkey(c, message, value, instance) for c in e.context)
